@@ -239,18 +239,22 @@ void HARNESS(void)
 }
 
 #elif defined(OP_access)
-/* operator[], front, back, size/length, empty on their defined domain */
-void c_access(uint8_t* a, uint64_t an, uint64_t pos)
+/* operator[], front, back, size/length, empty on their defined domain (results collected by the enforced wrapper) */
+struct access_res { uint8_t idx, front, back; uint64_t size; _Bool empty, empty0; };
+void c_access(uint8_t* a, uint64_t an, uint64_t pos, struct access_res* r)
 __CPROVER_requires(an <= HN && an >= 1 && pos < an)
-__CPROVER_assigns()
-__CPROVER_ensures(w_sv_index(a, an, pos) == a[pos] && w_sv_front(a, an) == a[0] && w_sv_back(a, an) == a[an - 1])
-__CPROVER_ensures(w_sv_size(a, an) == an && !w_sv_empty(a, an) && w_sv_empty(a, 0))
-{ w_sv_index(a, an, pos); }
+__CPROVER_assigns(*r)
+__CPROVER_ensures(r->idx == a[pos] && r->front == a[0] && r->back == a[an - 1])
+__CPROVER_ensures(r->size == an && !r->empty && r->empty0)
+{
+  r->idx = w_sv_index(a, an, pos); r->front = w_sv_front(a, an); r->back = w_sv_back(a, an);
+  r->size = w_sv_size(a, an); r->empty = w_sv_empty(a, an); r->empty0 = w_sv_empty(a, 0);
+}
 void HARNESS(void)
 {
-  MK_VIEW(a, HN) INPUT(uint64_t, in_pos);
+  MK_VIEW(a, HN) INPUT(uint64_t, in_pos); struct access_res r;
   __CPROVER_assume(in_an >= 1 && in_pos < in_an);
-  ir_throw_allowed = 0; c_access(a, in_an, in_pos); CANARY();
+  ir_throw_allowed = 0; c_access(a, in_an, in_pos, &r); CANARY();
 }
 
 #elif defined(OP_remove)
